@@ -38,6 +38,7 @@ type World struct {
 	lastTopics map[uuid.UUID]*ent.Topic
 	lastDump   string
 	cancelBase context.CancelFunc
+	nSetDelay  int
 	// delivery ids handed to a client by a pull (the only ids a client can name)
 	handed map[uuid.UUID]bool
 	// fault runs: called between an operation's last statement and its COMMIT
